@@ -434,6 +434,14 @@ class SciPyOptimizer(Optimizer):
             compute_gradients = compute_gradients or (
                 self._config.optimizer.speculative and self._method not in _NO_GRADIENT
             )
+            if (
+                compute_gradients
+                and self._config.optimizer.split_evaluations
+                and self._cached_function is None
+            ):
+                # A gradient needs the function values at the same point. With
+                # split evaluations these must come from their own evaluation:
+                compute_functions = True
             new_function, new_gradient = self._compute_functions_and_gradients(
                 variables,
                 compute_functions=compute_functions,
